@@ -866,7 +866,7 @@ class _BadStr:
 class LoopRig:
 	"""The real bin/transpile.py Interactive on a real TranspileApp DI container, driven by a scripted tty."""
 
-	def __init__(self, ctx: Ctx) -> None:
+	def __init__(self, ctx: Ctx, cache_dir: str | None = None) -> None:
 		import rogw.tranp.bin.transpile as tr
 		from rogw.tranp.app.app import App
 		from rogw.tranp.cache.cache import CacheSetting
@@ -888,7 +888,8 @@ class LoopRig:
 				'env:', '  transpiler: {}', '  view:', '    immutable_param_types: []', '',
 			]))
 		defs = tr.TranspileApp.definitions(tr.Args(['-c', cfg, '-it']))
-		defs[to_fullyname(CacheSetting)] = lambda: CacheSetting(basedir=os.path.join(root, 'cache'))
+		# `cache_dir`: several rigs may share one cache directory (grammar and library caches are then warm; `__main__` is never cached)
+		defs[to_fullyname(CacheSetting)] = lambda: CacheSetting(basedir=cache_dir or os.path.join(root, 'cache'))
 		self.inter = tr.Interactive(App(defs).resolve(Locator))
 		self.real_transpiler = self.inter.transpiler
 		rig = self
@@ -916,6 +917,7 @@ class LoopRig:
 		consumed = [0]
 
 		def fake_tty(prompt: str = '') -> list[str]:
+			self._mark()
 			if not feed:
 				raise _Exhausted()
 			item = feed.pop(0)
@@ -947,10 +949,22 @@ class LoopRig:
 			tr.tty = old  # type: ignore[assignment]
 		return f'{status} {consumed[0]}'
 
+	def _mark(self) -> None:
+		"""called at every tty() call: what was printed since the previous call is the output of the previous request"""
+		self._marks.append(len(self._buf.getvalue()))
+
+	def turn_outputs(self) -> list[str]:
+		"""what the last session printed for each request (in order of the tty() calls that handed them over)"""
+		text = self._buf.getvalue()
+		cuts = [*self._marks, len(text)]
+		return [text[cuts[i]:cuts[i + 1]] for i in range(len(self._marks))]
+
 	def _run(self, n_budget: int) -> str:
 		self.last_exc = None
+		self._buf = io.StringIO()
+		self._marks: list[int] = []
 		try:
-			with contextlib.redirect_stdout(io.StringIO()), pl.budget(cpu_s=pl.CAP_S * max(1, n_budget)):
+			with contextlib.redirect_stdout(self._buf), pl.budget(cpu_s=pl.CAP_S * max(1, n_budget)):
 				self.inter.run()
 			return 'quit'
 		except _Exhausted:
@@ -980,6 +994,7 @@ class LoopRig:
 		real_tty = tio.tty
 
 		def counting_tty(prompt: str = '') -> list[str]:
+			self._mark()
 			used[0] += 1
 			return real_tty(prompt)
 
@@ -1721,6 +1736,11 @@ def make_syntax_oracle(pipe: pl.Pipeline) -> Any:
 			o.message = f'text rejected by the grammar came out as {o.cls}, not Errors.Syntax: {o.message}'[:300]
 			o.key = f"unparsable-not-syntax:{o.cls.split('.')[-1]}[{mode}]"
 			o.kind = 'escape'
+		elif o.kind == 'ok' and unparsable(mode, data):
+			# e.g. the tree of an EARLIER input of the session was transpiled instead (a history effect: confirmed with the previous input as prefix)
+			o.message = 'text rejected by the grammar was loaded and transpiled without any error'
+			o.key = f'unparsable-accepted[{mode}]'
+			o.kind = 'escape'
 
 	return syntax_oracle
 
@@ -1747,6 +1767,10 @@ def fuzz_inputs(ctx: Ctx) -> list[tuple[str, str, str | bytes]]:
 		out.append(('witness-F3', m, F3_WITNESS))
 		for b in [*BOUNDARY_TEXTS, 'a = ' + '1 + ' * ctx.scale(200, 3000) + '1\n']:  # one long line: ~1 ms per term
 			out.append(('boundary', m, b))
+	# the same small files as modules that are not transpile targets: the error (Errors.Fatal of the entrypoint handler) carries the ROOT node,
+	# which has no parent and, for an empty file, no source position — and must be rendered like every other error
+	for b in [*BOUNDARY_TEXTS[:-1], *gen.VALID_PROGRAMS[:3]]:
+		out.append(('boundary-nontarget', 'on-disk-nontarget', b))
 	seeds = list(gen.VALID_PROGRAMS) + [s for _, s in gen.fixture_programs()]
 	chunks = [s for _, s in gen.big_fixture_chunks()]
 	for m in both:
@@ -1835,7 +1859,7 @@ def fuzz_inputs(ctx: Ctx) -> list[tuple[str, str, str | bytes]]:
 def search_fuzz(ctx: Ctx) -> SearchResult:
 	res = SearchResult('fuzz: Modules.load -> Py2Cpp.transpile in {ok} ∪ Errors.Error, ErrorRender total, 10 s CPU cap (in memory + on disk)')
 	base = ctx.tmpdir()
-	pipes = {'in-memory': pl.Pipeline('in-memory', base), 'on-disk': pl.Pipeline('on-disk', base)}
+	pipes = {'in-memory': pl.Pipeline('in-memory', base), 'on-disk': pl.Pipeline('on-disk', base), 'on-disk-nontarget': pl.Pipeline('on-disk-nontarget', base)}
 	inputs = fuzz_inputs(ctx)
 	syntax_oracle = make_syntax_oracle(pipes['in-memory'])
 	for p in pipes.values():
@@ -1846,7 +1870,7 @@ def search_fuzz(ctx: Ctx) -> SearchResult:
 	quoted = 0
 	t0 = time.time()
 	budget_s = ctx.scale(240, 3000)  # safety net only: the plan is sized to finish well inside it (a cut would make the key set machine dependent)
-	prev: dict[str, str | bytes | None] = {'in-memory': None, 'on-disk': None}
+	prev: dict[str, str | bytes | None] = {'in-memory': None, 'on-disk': None, 'on-disk-nontarget': None}
 	fatal_sites: Counter[str] = Counter()
 	for kind, mode, data in inputs:
 		if time.time() - t0 > budget_s:
@@ -1878,7 +1902,7 @@ def search_fuzz(ctx: Ctx) -> SearchResult:
 	for k in sorted(first):
 		kind, mode, data, o, before = first[k]
 		# corpus witnesses are already minimal, deep-nesting inputs are what they are (and each run of them costs seconds)
-		small = data if kind in ('corpus', 'witness-F3', 'boundary', 'deep-nesting', 'depth-stress') or kind.startswith('project:') else minimise(pipes[mode], data, k)
+		small = data if kind in ('corpus', 'witness-F3', 'boundary', 'boundary-nontarget', 'deep-nesting', 'depth-stress') or kind.startswith('project:') else minimise(pipes[mode], data, k)
 		history: list[str | bytes] = []
 		conf = pl.fresh_outcome(mode, base, small, post=syntax_oracle)
 		if k not in conf.keys():
@@ -2127,6 +2151,83 @@ def search_laws(ctx: Ctx) -> SearchResult:
 
 
 # ---------------------------------------------------------------------------------------------
+# search: "the error rendering itself never fails" — whatever node of a real tree an error carries
+
+RENDER_NODE_TEXTS: list[str] = ['', '\n', '\n\n', ' ', '\t\n', '# c', '# c\n', '\x0c', 'pass', 'pass\n', '...\n', 'a: int = 1\n', 'a: int = 1', 'if True:\n\tpass\n',
+	'class A:\n\tdef f(self) -> int:\n\t\treturn 1\n', 'def f(s: str = "\u65e5\u672c") -> None:\n\tprint(s)\n', 'a = 1\r\nb = 2\r\n', 'x: list[int] = [\n\t1,\n\t2,\n]\n',
+	'\n\n# only a comment after blank lines\n\n', 'def f() -> None:\n\t"""doc"""\n\t...']
+
+
+def search_render_nodes(ctx: Ctx, only: tuple[str, str] | None = None) -> SearchResult:
+	"""For real modules (on disk and in memory; empty, blank, comment-only, one statement, nested) and EVERY node of their trees — the root
+	first: it has no parent and, for an empty file, no source position — an application error that carries the node renders:
+	`str(ErrorRender(e))` returns a string. The oracle is the property sentence itself; no model involved."""
+	from rogw.tranp.view.error_render import ErrorRender
+	Errors = _errors()
+	res = SearchResult('render law on real trees: str(ErrorRender(Errors.X(node, …))) is defined for every node (root included) of real modules on disk and in memory')
+	hist: Counter[str] = Counter()
+	base = ctx.tmpdir()
+	seen: set[str] = set()
+	dl = _deadline(ctx, 'render-nodes', ctx.scale(30, 300))
+	texts = RENDER_NODE_TEXTS + [s for s in gen.VALID_PROGRAMS[:(12 if ctx.thorough else 3)]]
+	if only is not None:  # replay of one finding
+		texts = [only[1]]
+	for mode in (('on-disk', 'in-memory') if only is None else (only[0],)):
+		pipe = pl.Pipeline(mode, base)
+		try:
+			for text in texts:
+				if dl.over():
+					continue
+				module, exc = pipe.load_module(text)
+				if module is None:
+					hist[f'{mode}/load:{type(exc).__name__}'] += 1  # the outcome of loading is the business of the fuzz
+					continue
+				try:
+					with pl.budget():
+						root = module.entrypoint
+						nodes = [root, *root.procedural()]
+				except BaseException as e:  # noqa: BLE001 — enumerating the tree is not what this law is about
+					hist[f'{mode}/enumerate:{type(e).__name__}'] += 1
+					continue
+				old_cwd = os.getcwd()
+				if mode != 'in-memory':
+					os.chdir(pipe.proj)
+				try:
+					for i, node in enumerate(nodes[:ctx.scale(60, 400)]):
+						for make in (lambda n: Errors.Logic(n, 'm'), lambda n: Errors.Fatal(n)):
+							res.cases += 1
+							try:
+								try:
+									raise make(node)
+								except Errors.Error as e:
+									with pl.budget():
+										out = str(ErrorRender(e))
+								if not isinstance(out, str):
+									raise TypeError(f'str(ErrorRender) returned {type(out).__name__}')
+								hist[f"{mode}/{'root' if i == 0 else 'inner'}/{'quoted' if 'via Node:' in out else 'plain'}"] += 1
+							except (KeyboardInterrupt, SystemExit):
+								raise
+							except BaseException as e2:  # noqa: BLE001
+								which = 'root' if i == 0 else type(node).__name__
+								key = f'render-node:{pl.escape_key(e2, mode)}[{which}]'
+								hist[key] += 1
+								if key in seen:
+									continue
+								seen.add(key)
+								res.findings.append(Finding(key=key, what=f'str(ErrorRender(Errors.…(node))) raised {display(type(e2))} for the {which} node of the {mode} module {text!r}',
+									replay={'kind': 'render-node', 'mode': mode, 'source': text, 'node_index': i, 'tranp_frames': pl.tranp_frames(e2)[-5:]}))
+								ctx.notes.append(f'finding key={key} | {mode} module {text!r}, node #{i} ({which})')
+				finally:
+					os.chdir(old_cwd)
+		finally:
+			pipe.close()
+	res.distinct = res.cases
+	res.histogram = dict(sorted(hist.items()))
+	res.note = f'{len(texts)} module texts × 2 modes (on disk, in memory), every node of the tree (root first), Errors.Logic(node, msg) and Errors.Fatal(node)'
+	return res
+
+
+# ---------------------------------------------------------------------------------------------
 # search: sessions of the real interactive loop (the property's history quantifier)
 
 HISTORY_POOL_EXTRA = ['x = y', 'a = = 1', 'def f(:', 'a = $', 'if a:\n        x = 1\n    y = 2', 'from nowhere import X', 'a, b = 1', 'x = x', 'x = lambda a, b: a',
@@ -2160,6 +2261,22 @@ def _expected_keys(keys: list[str]) -> str:
 	return f'running {started} {len(keys)}'
 
 
+def _turn_outcome(text: str) -> tuple[str, str]:
+	"""what Interactive.run printed for one request → ('ok', <the transpiled text>) | ('<Errors class>', '') | ('nothing', '')"""
+	import re
+	if '\nResult:\n---------------\n' in '\n' + text:
+		return 'ok', text.split('Result:\n---------------\n', 1)[1]
+	m = re.findall(r'^rogw\.tranp\.errors\.Errors\.(\w+): ', text, re.M)
+	return (m[-1], '') if m else ('nothing', '')
+
+
+# requests that declare nothing (no class, function, variable, import): no row of the symbol table belongs to their module
+DECLARATION_FREE = ['print(1)', 'pass', 'if True:\n\tprint(1)', '...', '1 + 1', 'for i in range(1):\n\tpass', '# nothing']
+# loads that fail after the parse, in a preprocessor (before / while the symbols of the module are expanded)
+FAIL_IN_PREPROCESS = ['def f(a) -> None: ...', 'from nowhere import X', 'class A(B): ...']
+RESUBMIT_SECONDS = ['print(2', 'print(2)', 'a: int = 1', '', 'x = y', 'def f(:']
+
+
 def search_loop_histories(ctx: Ctx) -> SearchResult:
 	"""Every session of the real Interactive.run must consume all of its inputs: each input ends ok or in an Errors.Error that is
 	printed, whatever was submitted before (modules of earlier inputs stay registered and are unloaded by the next one). A session is
@@ -2173,6 +2290,14 @@ def search_loop_histories(ctx: Ctx) -> SearchResult:
 	# boundary requests first: nothing typed at all (before, between and after other requests, after a failed one, repeatedly)
 	for h in (['', 'b = 2'], ['a: int = 1', '', ''], ['def f(:', '', 'x = y', ''], ['   ', '\t', 'b = 2']):
 		histories.append(list(h))
+	# re-submissions: the module path `__main__` is loaded again and again — whatever the previous request left behind (nothing declared,
+	# a load that failed half way), the next request is served as if it were the first: same outcome as alone in a fresh session
+	firsts = DECLARATION_FREE + FAIL_IN_PREPROCESS
+	for i, first in enumerate(firsts):
+		for j in ((0, 1, 2, 3, 4, 5) if ctx.thorough else (0, 1 + i % 5)):
+			histories.append([first, RESUBMIT_SECONDS[j]])
+	histories.append([firsts[0], firsts[1], RESUBMIT_SECONDS[0], firsts[2], RESUBMIT_SECONDS[1]])
+	n_compared_fixed = len(histories)
 	for s in selfs:  # every self-import followed by something, and twice in a row
 		histories.append([s, 'b = 2'])
 		histories.append([s, s, pool[0]])
@@ -2182,6 +2307,8 @@ def search_loop_histories(ctx: Ctx) -> SearchResult:
 	for _ in range(ctx.scale(40, 400)):
 		n = rng.randint(2, 6)
 		h = [rng.choice(selfs) if rng.random() < 0.25 else rng.choice(pool) for _ in range(n)]
+		if rng.random() < 0.35:
+			h[rng.randrange(n)] = rng.choice(firsts)
 		if rng.random() < 0.3:
 			k = rng.randrange(n)
 			h[k] = ''.join(gen.mutate_tokens(rng, gen.tokens_of(h[k]))).strip('\n')
@@ -2224,7 +2351,24 @@ def search_loop_histories(ctx: Ctx) -> SearchResult:
 			replay={'kind': 'session', kind: minimal, 'status': out, 'expected': expected, 'tranp_frames': pl.tranp_frames(e)[-6:] if e is not None else []}))
 		ctx.notes.append(f'finding key={key} | {kind} session {minimal!r} → {out} (expected {expected})')
 
-	for h in histories:
+	# the outcome of a request ALONE: first and only request of a brand-new Interactive (its own App; the cache directory is shared between
+	# the reference rigs only — grammar and library caches warm, `__main__` is never cached)
+	ref_cache = os.path.join(ctx.tmpdir(), 'reference-cache')
+	alone: dict[tuple[str, ...], tuple[str, str]] = {}
+	max_refs = ctx.scale(45, 600)
+
+	def alone_outcome(req: list[str]) -> tuple[str, str] | None:
+		k = tuple(req)
+		if k not in alone:
+			if len(alone) >= max_refs:
+				return None
+			ref = LoopRig(ctx, cache_dir=ref_cache)
+			st = ref.run_script([('lines', req)])
+			alone[k] = _turn_outcome(ref.turn_outputs()[0]) if st == 'running 1' else ('nothing', st)
+		return alone[k]
+
+	fed: list[list[str]] = []  # every request the current rig has served
+	for n_hist, h in enumerate(histories):
 		if _dl_sessions.over():
 			continue
 		res.cases += 1
@@ -2234,11 +2378,44 @@ def search_loop_histories(ctx: Ctx) -> SearchResult:
 		hist[out.split(' ')[0]] += 1
 		hist['with-empty-request'] += any(not r for r in reqs)
 		if out == expected:
+			# every request was served: was it served as ITSELF? (depth-stress requests are left out: their outcome is a matter of stack depth)
+			outs = rig.turn_outputs()
+			for i, r in enumerate(reqs):
+				if r == ['exit'] or i >= len(outs) or any(len(ln) > 2000 for ln in r):
+					continue
+				want = alone_outcome(r)
+				if want is None:
+					hist['outcome/unreferenced'] += 1
+					continue
+				got = _turn_outcome(outs[i])
+				if got == want:
+					hist['outcome/same-as-alone'] += 1
+					continue
+				key = f'history:{got[0]}-instead-of-{want[0]}' if got[0] != want[0] else 'history:different-result'
+				hist[key] += 1
+				if key in seen_keys:
+					continue
+				seen_keys.add(key)
+				# shortest history in front of the request that still changes its outcome on a fresh rig (the rig serves session after session:
+				# the history reaches back to its creation)
+				full = [*fed, *reqs[:i + 1]]
+				minimal = full[-13:]
+				for start in range(len(full) - 2, max(-1, len(full) - 14), -1):
+					probe = LoopRig(ctx, cache_dir=ref_cache)
+					part = full[start:]
+					if probe.run_script([('lines', x) for x in part]) == f'running {len(part)}' and _turn_outcome(probe.turn_outputs()[len(part) - 1]) == got:
+						minimal = part
+						break
+				res.findings.append(Finding(key=key, what=f'the request {r!r} alone in a fresh session ends {want[0]}, after {minimal[:-1]!r} in the same session it ends {got[0]}'
+					+ (' (another program is transpiled)' if got[0] == want[0] else ''),
+					replay={'kind': 'session', 'requests': minimal, 'status': out, 'expected': _expected_session(minimal), 'alone': want[0], 'in_session': got[0]}))
+				ctx.notes.append(f'finding key={key} | session {minimal!r}: last request alone → {want[0]}, in the session → {got[0]}')
+			fed.extend(reqs)
 			if out.startswith('quit'):
-				rig = LoopRig(ctx)
+				rig, fed = LoopRig(ctx), []
 			continue
 		report('requests', reqs, out, expected, int(out.rsplit(' ', 1)[1]), lambda probe, part: probe.run_script([('lines', r) for r in part]))
-		rig = LoopRig(ctx)  # the session is over; start a new one
+		rig, fed = LoopRig(ctx), []  # the session is over; start a new one
 	for keys in transcripts:
 		if _dl_sessions.over():
 			continue
@@ -2576,7 +2753,7 @@ def run(ctx: Ctx) -> int:
 						streams.append(st)
 	with ctx.timed('search'):
 		searches = []
-		for fn in (search_f3_replay, search_laws, search_cache_history, search_loop_histories, search_cli_sessions, search_fuzz):
+		for fn in (search_f3_replay, search_laws, search_render_nodes, search_cache_history, search_loop_histories, search_cli_sessions, search_fuzz):
 			with ctx.timed(f'search:{fn.__name__}'):
 				sr = _guarded(ctx, fn, crashes)
 				if sr is not None:
@@ -2621,6 +2798,15 @@ def replay(ctx: Ctx, path: str) -> int:
 			print(f'VIOLATION property={PROP} replay={os.path.relpath(path, common.VERIF)}')
 		ctx.cleanup()
 		return 1 if bad else 0
+	if rec.get('kind') == 'failing-input' and rec['input'].get('kind') == 'render-node':
+		r = search_render_nodes(ctx, only=(rec['input']['mode'], rec['input']['source']))
+		known = {k['key'] for k in common.load_known(PROP) if k.get('status') == 'known'}
+		bad = [f for f in r.findings if f.key not in known]
+		print(f"replay: render law on the {rec['input']['mode']} module {rec['input']['source']!r}: {r.cases} renders, {'; '.join(f.key for f in r.findings) or 'all defined'}")
+		if bad:
+			print(f'VIOLATION property={PROP} replay={os.path.relpath(path, common.VERIF)}')
+		ctx.cleanup()
+		return 1 if bad else 0
 	if rec.get('kind') == 'failing-input' and rec['input'].get('kind') == 'cli-session':
 		lines = [bytes.fromhex(h) for h in rec['input']['lines_hex']]
 		root = ctx.tmpdir()
@@ -2658,6 +2844,14 @@ def replay(ctx: Ctx, path: str) -> int:
 		print(f"replay: session {inp.get('keys') or inp.get('requests') or inp.get('session')!r} -> {out} (expected {expected})")
 		known = {k['key'] for k in common.load_known(PROP) if k.get('status') == 'known'}
 		bad = out != expected and rec.get('key') not in known
+		if 'alone' in inp and 'requests' in inp and out == expected:
+			# a history finding: the last request must end as it does alone in a fresh session
+			got = _turn_outcome(rig.turn_outputs()[len(inp['requests']) - 1])
+			ref = LoopRig(ctx)
+			ref.run_script([('lines', inp['requests'][-1])])
+			want = _turn_outcome(ref.turn_outputs()[0])
+			print(f'replay: last request in the session -> {got[0]}; alone in a fresh session -> {want[0]}' + ('' if got == want else '  (DIFFERENT)'))
+			bad = got != want and rec.get('key') not in known
 		if bad:
 			print(f'VIOLATION property={PROP} replay={os.path.relpath(path, common.VERIF)}')
 		ctx.cleanup()
